@@ -46,6 +46,13 @@ type c20Marsh struct{ X int }
 
 func (m c20Marsh) MarshalValue() data.Value { return data.String(fmt.Sprintf("marshaled-%d", m.X)) }
 
+// c20PtrMarsh has its marshaler on the pointer: only *c20PtrMarsh is a data.Marshaler.
+type c20PtrMarsh struct{ X int }
+
+func (m *c20PtrMarsh) MarshalValue() data.Value {
+	return data.String(fmt.Sprintf("ptr-marshaled-%d", m.X))
+}
+
 // named primitive types with a custom marshaler: honoured wherever they occur (alone, in slices, maps, struct fields)
 type c20Cents int64
 
@@ -83,6 +90,7 @@ type c20Outer struct {
 	WhenPtr   *time.Time
 	Custom    c20Marsh
 	CustomPtr *c20Marsh
+	PtrCustom *c20PtrMarsh
 	c20Embedded
 	C20Pub
 	Tags    []string
@@ -208,6 +216,10 @@ func (g *c20gen) scalar() (interface{}, exp) {
 		if g.r.Bool() {
 			g.kinds["*marshaler"] = true
 			return &m, e
+		}
+		if g.r.P(1, 3) {
+			g.kinds["pointer-receiver-marshaler"] = true
+			return &c20PtrMarsh{m.X}, exp{kind: "string", s: fmt.Sprintf("ptr-marshaled-%d", m.X)}
 		}
 		return m, e
 	case 19:
@@ -471,6 +483,12 @@ func (g *c20gen) outer(depth int) (interface{}, exp) {
 	} else {
 		e.m[g.key("CustomPtr")] = exp{kind: "null"}
 	}
+	if g.r.Bool() {
+		o.PtrCustom = &c20PtrMarsh{9}
+		e.m[g.key("PtrCustom")] = exp{kind: "string", s: "ptr-marshaled-9"}
+	} else {
+		e.m[g.key("PtrCustom")] = exp{kind: "null"}
+	}
 	// unexported embedded struct type: the promoted field is not reachable through the embedded field itself
 	o.c20Embedded.EmbeddedField = uint16(g.r.Intn(1000))
 	o.C20Pub.Level = g.r.Intn(9)
@@ -722,7 +740,7 @@ func init() {
 		Floors: func(obs map[string]int64, cells map[string]bool, tier string) []string {
 			var why []string
 			for _, k := range []string{"nil", "bool", "int", "int8", "int16", "int32", "int64", "uint", "uint8", "uint16", "uint32", "uint64", "float32", "float64", "string", "time", "*time",
-				"marshaler", "*marshaler", "nil-pointer", "[]interface{}", "[]int", "nil-slice", "map[string]interface{}", "map[string]int", "nil-map", "struct", "*struct", "**struct", "struct-nested", "named-primitive-marshaler", "[]named-primitive-marshaler", "shared-pointer", "same-named-struct-types"} {
+				"marshaler", "*marshaler", "pointer-receiver-marshaler", "nil-pointer", "[]interface{}", "[]int", "nil-slice", "map[string]interface{}", "map[string]int", "nil-map", "struct", "*struct", "**struct", "struct-nested", "named-primitive-marshaler", "[]named-primitive-marshaler", "shared-pointer", "same-named-struct-types"} {
 				if !cells["kind:"+k] {
 					why = append(why, "Go kind never generated: "+k)
 				}
